@@ -137,6 +137,19 @@ PROPS = {
              "checks": {"quick": 1600, "thorough": 60000}, "shards": {"quick": 8, "thorough": 12}},
         ],
     },
+    "C09": {
+        "level": "fault_enumeration", "sim": True,
+        "technique": "fault enumeration inside property-based testing: for generated rollout scenarios every request position of every rollout sync is disturbed (process crash with state rebuilt from the store, 500, lost response, conflict); oracle = request-order invariant, 'never ahead of the recorded revision' on the store at the cut, single claims after recovery, and differential comparison of the final state with the undisturbed run",
+        "level_text": "single faults are enumerated exhaustively over the recorded request trace of each small scenario (bounded-exhaustive scenarios) and sampled for larger random ones; the harness owns the crash point: requests after the cut never reach the store and all process state (controller, caches, SSA memo) is rebuilt from the store",
+        "rule": ("case = rollout scenario (as C07/C08: 1-2 children exhaustively, 1-4 random; both rolling methods; status checks; field paths; one or two parent changes) x one cut (sync index, request index) x kind (crash, 500 before commit, response lost after commit, 409); "
+                 "the exhaustive driver visits every cut position x kind of every enumerated scenario; non-trivial = the cut falls inside a sync that has at least one ControllerRevision write and one child write; distinct = distinct choice sequences"),
+        "jobs": [
+            {"name": "c09-exh", "pkg": COMPOSITE, "tests": ["TestVerifC09Exhaustive"], "timeout": {"quick": 900, "thorough": 3400},
+             "shards": {"quick": 12, "thorough": 14}},
+            {"name": "c09-rand", "pkg": COMPOSITE, "tests": ["TestVerifC09Random"],
+             "checks": {"quick": 600, "thorough": 40000}, "shards": {"quick": 2, "thorough": 12}},
+        ],
+    },
     "C10": {
         "level": "exploration", "sim": True,
         "technique": "property-based testing (rapid, stateful histories): generated parent life cycles; oracle = invariants over the simulator's request log and the webhook log evaluated after every sync",
